@@ -1,4 +1,5 @@
 from collections import OrderedDict
+import datetime
 import enum
 import json
 import logging
@@ -65,6 +66,23 @@ class Dumper(yaml.SafeDumper):
             self._kv_sep = ': '
         else:
             self._kv_sep = ':'
+
+    def ignore_aliases(self, data: Any) -> bool:
+        """Whether to write an object in full wherever it occurs.
+
+        PyYAML does that for strings and numbers, rather than using an
+        anchor and aliases. Dates, paths and string-like objects are
+        written as scalars as well, and JSON has no aliases at all, so
+        an object of these types that occurs twice is written twice.
+
+        Args:
+            data: The object to be represented.
+        """
+        if (
+                isinstance(data, (datetime.date, Path)) or
+                is_string_like(type(data))):
+            return True
+        return bool(yaml.SafeDumper.ignore_aliases(self, data))
 
     def emit(self, event: yaml.events.Event) -> None:
         """Emit an event.
